@@ -203,6 +203,12 @@ pub fn char_soup(rng: &mut Rng, max_len: usize) -> String {
     let n = rng.below(max_len + 1);
     let mut s = String::new();
     for _ in 0..n {
+        if rng.chance(1, 20) {
+            if let Some(c) = crate::vocab::special_char(rng) {
+                s.push(c);
+                continue;
+            }
+        }
         s.push_str(rng.pick_str(SOUP_CHARS));
     }
     s
